@@ -76,6 +76,25 @@ type Summary struct {
 	Skipped     int            `json:"skipped_after_timeouts"`
 }
 
+// QA is one oracle query with the answer the Go side gave.
+type QA struct {
+	Name string `json:"name"`
+	Args string `json:"args"`
+	Ans  string `json:"ans"`
+}
+
+type caseRec struct {
+	ID    int    `json:"id"`
+	Prop  string `json:"prop"`
+	Fn    string `json:"fn"`
+	Args  string `json:"args"`
+	Obs   string `json:"obs"`
+	Corr  bool   `json:"corr"`
+	PropOK bool  `json:"prop_ok"`
+	Class string `json:"class"`
+	Log   []QA   `json:"log"`
+}
+
 type Runner struct {
 	Fns     map[string]*Fn
 	Oracles map[string]func(args []w.Val) w.Val
@@ -87,6 +106,11 @@ type Runner struct {
 	Sum     Summary
 	seen    map[string]struct{}
 	MaxFail int
+	// second evaluator: the first CaseMax judged cases are written (with the oracle answers given) to CaseLog
+	CaseLog *os.File
+	CaseMax int
+	caseN   int
+	qaLog   []QA
 	// timeouts: implementation calls that did not return; their goroutines keep running, so after a few the run stops issuing cases
 	timeouts int
 }
@@ -162,6 +186,7 @@ func (r *Runner) Call(fn *Fn, args []w.Val) w.Val {
 func (r *Runner) Ask(prop, fn string, args []w.Val, obs w.Val) Verdict {
 	r.n++
 	r.oraLog = r.oraLog[:0]
+	r.qaLog = r.qaLog[:0]
 	fmt.Fprintf(r.in, "C %d %s %s %s %s\n", r.n, prop, w.Esc(fn), w.Show(w.List(args)), w.Show(obs))
 	r.in.Flush()
 	for {
@@ -185,6 +210,9 @@ func (r *Runner) Ask(prop, fn string, args []w.Val, obs w.Val) Verdict {
 				}
 			}
 			r.oraLog = append(r.oraLog, line+" => "+w.Show(ans))
+			if err == nil {
+				r.qaLog = append(r.qaLog, QA{Name: name, Args: w.Show(a), Ans: w.Show(ans)})
+			}
 			fmt.Fprintf(r.in, "= %s\n", w.Show(ans))
 			r.in.Flush()
 		case "R":
@@ -231,6 +259,18 @@ func (r *Runner) Run(c Case) Verdict {
 		r.timeouts++
 	}
 	v := r.Ask(c.Prop, c.Fn, c.Args, obs)
+	if r.CaseLog != nil && r.caseN < r.CaseMax && v.Bad == "" && v.Class != "bad-case" && len(r.qaLog) <= 400 {
+		cl := v.Class
+		if cl == "" {
+			cl = "-"
+		}
+		rec := caseRec{ID: r.n, Prop: c.Prop, Fn: c.Fn, Args: w.Show(w.List(c.Args)), Obs: w.Show(obs), Corr: v.Corr, PropOK: v.Prop, Class: cl,
+			Log: append([]QA{}, r.qaLog...)}
+		if b, err := json.Marshal(rec); err == nil && len(b) < 200000 {
+			r.CaseLog.Write(append(b, '\n'))
+			r.caseN++
+		}
+	}
 	r.record(c, obs, v, false)
 	return v
 }
